@@ -70,6 +70,9 @@ F = {
              "ok 0:0=- 0:1=- 0:2=- 0:3=v:1 0:4=v:1 0:5=- 1:0=v:0") for p in ("C01", "C11")] +
            [("C15", "bound-not-subset", "cfg  | T0: anew 0; aclone 0 1; aclone 0 2; spawn 1; spawn 2; acount 0; acount 0; adrop 0; join 1; join 2 | T1: acount 1; agetmut 1; aunwrap 1; ifeq 1 err:0 1; adrop 1 | T2: acount 2; aunwrap 2; ifeq 1 err:0 1; adrop 2",
              "ok 0:0=- 0:1=- 0:2=- 0:3=- 0:4=- 0:5=v:3 0:6=v:3 0:7=v:0 0:8=- 0:9=- 1:0=v:1 1:1=v:1 1:2=ok:0 2:0=v:2 2:1=err:0 2:3=v:0")]),
+ "F11": dict(cls="unstarted-closure-dropped-outside",
+   what="the process aborts instead of unwinding to the caller of loom::model when an iteration fails while a spawned thread that has not started yet still owns a loom handle in its closure (`let a2 = a.clone(); thread::spawn(move || use(a2)); assert!(false)`): the closure is dropped with the scheduler's coroutine, outside the execution context (rt/scheduler.rs)",
+   entries=[("C06", "abort", "cfg unwind=1 | T0: anew 0; aclone 0 1; spawnown 1 1; panic | T1: adrop 1", "abort")]),
  "F23": dict(cls="lazy-init-runs-twice",
    what="the initialiser of a lazy static runs twice in one execution when two threads race on the first access and the initialiser contains a scheduling point (Lazy::get initialises outside any lock and re-checks afterwards; the loser's value is dropped): side effects of the initialiser happen twice, the surviving instance may be the second one created (src/lazy_static.rs Lazy::get, acknowledged in a comment there)",
    entries=[("C17", "forbidden", "cfg x=1 | T0: spawn 1; lazy 0; join 1; ld 0 rlx | T1: ld 0 rlx; lazy 0",
